@@ -56,8 +56,8 @@ EPS8 = 8 * 2.3e-16
 
 def plan(tier):
     if tier == "thorough":
-        return {"cases": 84000, "shards": 16, "budget_s": 800}
-    return {"cases": 4800, "shards": 8, "budget_s": 100}
+        return {"cases": 92400, "shards": 16, "budget_s": 800}
+    return {"cases": 5280, "shards": 8, "budget_s": 100}
 
 
 def floors(tier):
@@ -69,7 +69,9 @@ def floors(tier):
             "param:D_block-binds": 1000 * k, "param:tol-binds": 1000 * k, "param:tol_block-binds": 1000 * k,
             "nothing_binds": 300 * k, "spectra_with_zeros": 300 * k, "spectra_all_equal": 50 * k, "single_element_sectors": 500 * k,
             "stage_consistency_checked": 100 * k, "multiplets_hermitian_judged": 40 * k, "decomp_fused": 80 * k, "decomp_lazy": 150 * k, "decomp_dict_by_charge": 40 * k,
-            "decomp_designed_spectrum": 100 * k, "mask_f_used": 10 * k}
+            "decomp_designed_spectrum": 100 * k, "mask_f_used": 10 * k,
+            "lowrank_judged": 250 * k, "lowrank_arpack_cases": 40 * k, "lowrank_dict_asymmetric": 80 * k,
+            "lowrank_dict_asymmetric_negated_combo": 30 * k, "lowrank:k_dict": 20 * k, "lowrank:int": 30 * k}
 
 
 # ------------------------------------------------------------------ specification
@@ -733,7 +735,7 @@ def cluster(full, rel=REL_RECOMPUTED):
     return out
 
 
-def match_kept(full, reps, kept, scale):
+def match_kept(full, reps, kept, scale, rel=None):
     """Map every kept value to a distinct value of the full sector spectrum (nearest); returns their representatives | None."""
     full = list(np.asarray(full, dtype=float))
     reps = list(np.asarray(reps, dtype=float))
@@ -742,7 +744,7 @@ def match_kept(full, reps, kept, scale):
         if not full:
             return None, None
         j = int(np.argmin([abs(v - x) for x in full]))
-        if abs(v - full[j]) > REL_RECOMPUTED * max(scale, 1e-300):
+        if abs(v - full[j]) > (rel or REL_RECOMPUTED) * max(scale, 1e-300):
             return None, None
         raw.append(full.pop(j))
         out.append(reps.pop(j))
@@ -756,7 +758,7 @@ def limits_for_decomp(rng, full, allow_dict=True):
     return kw
 
 
-def trunc_observe(ctx, fn, E, ht, operand, left, right, U, S, V, sU, Un, Vn, Uaxis, Vaxis, w, herm=False):
+def trunc_observe(ctx, fn, E, ht, operand, left, right, U, S, V, sU, Un, Vn, Uaxis, Vaxis, w, herm=False, iso_tol=None):
     """Structure of the truncated factors and their dense images; returns (Um, s, Vm, kept blocks) or None."""
     from checks import c04
     sym = E.sym
@@ -785,8 +787,8 @@ def trunc_observe(ctx, fn, E, ht, operand, left, right, U, S, V, sU, Un, Vn, Uax
             ctx.violation(f"{fn}:factor-legs:V", f"{fn}: V: {bad}", w)
             return None
         Vm = F.mat_first(Vd)
-        c04.check_identity(ctx, fn, "VV^+", Vm @ Vm.conj().T, w)
-    c04.check_identity(ctx, fn, "U^+U", Um.conj().T @ Um, w, c04.TOL_ISO if V is not None else c04.TOL_ISO_EIGH)
+        c04.check_identity(ctx, fn, "VV^+", Vm @ Vm.conj().T, w, iso_tol or c04.TOL_ISO)
+    c04.check_identity(ctx, fn, "U^+U", Um.conj().T @ Um, w, iso_tol or (c04.TOL_ISO if V is not None else c04.TOL_ISO_EIGH))
     return Um, s, Vm, F.diag_blocks(S)
 
 
@@ -890,6 +892,133 @@ def svd_trunc_case(ctx, idx, sym):
               "kept": {str(t): v.tolist() for t, v in kept_raw.items()}} if idx % 40 == 2 else None)
 
 
+def big_matrix(E):
+    """Rank-2 tensor of charge 0 with one sector whose block has more than 5000 elements (the ARPACK branch of svds_scipy)."""
+    rng = E.rng
+    leg = D.gen_leg(rng, E.sym, nsec=(1, 3), dmax=4)
+    secs = list(leg.sectors)
+    j = rng.randrange(len(secs))
+    dl = [Dt for _, Dt in secs]
+    dr = [rng.randint(1, 4) for _ in secs]
+    dl[j], dr[j] = rng.randint(72, 80), rng.randint(71, 78)
+    l = D.HLeg(E.sym, leg.s, [(t, d) for (t, _), d in zip(secs, dl)])
+    r = D.HLeg(E.sym, -leg.s, [(t, d) for (t, _), d in zip(secs, dr)])
+    legs = [l, r] if rng.random() < 0.5 else [r, l]
+    return D.gen_tensor(rng, E.nprng, E.sym, legs=legs, n=G.zero(E.sym), density=1.0)
+
+
+def svd_lowrank_case(ctx, idx, sym):
+    """svd_with_truncation(policy='lowrank'): at most D_block (k_block) triples per block are computed - block-wise full svd cut to k
+    for small blocks, ARPACK for blocks with > 5000 elements and k < min(dims) - 1 - and then masked.  Same specification as fullrank,
+    judged against the FULL spectrum; per-sector dictionaries are keyed by the charges of the new leg (charge conservation)."""
+    import yastn
+    from checks import c04
+    E = c04.Env(ctx, idx, sym)
+    rng = E.rng
+    big = rng.random() < 0.2
+    ht = big_matrix(E) if big else E.tensor()
+    if not ht.blocks:
+        ht = big_matrix(E)
+        big = True
+    state = rng.getstate()
+    fus = "none" if big else None
+    operand = F.make_operand(rng, ht, E.cfg, fusion=fus)
+    left, right = F.bipartition(rng, operand.nlegs)
+    flatL, flatR = F.flat_axes(operand, left), F.flat_axes(operand, right)
+    # spectra with clear gaps (ratio 0.8 between consecutive values, all values of all sectors distinct): Arnoldi accuracy and ties are not the issue
+    nsec = max(1, len(F.Sectors(ht, flatL, flatR, 1, ht.n).sec))
+    ht = F.redesign_svd(rng, ht, flatL, flatR, values=lambda k, i: [0.8 ** (j + i / nsec) for j in range(k)])
+    r2 = random.Random()
+    r2.setstate(state)
+    operand = F.make_operand(r2, ht, E.cfg, fusion=fus)
+    ctx.count("decomp_fused", int(bool(operand.info["fusion"])))
+    ctx.count("decomp_lazy", int(operand.info["state"] != "plain" or operand.info["post"] != "none"))
+    axes = F.axes_arg(rng, left, right)
+    sU, nU = rng.choice((1, -1)), rng.choice((True, False))
+    Uaxis, Vaxis = F.rand_axis(rng, len(left) + 1), F.rand_axis(rng, len(right) + 1)
+    base = {"axes": axes, "sU": sU, "nU": nU}
+    if rng.random() < 0.2:
+        base["fix_signs"] = True
+    Un, Vn = (ht.n, G.zero(sym)) if nU else (G.zero(sym), ht.n)
+    sec = F.Sectors(ht, flatL, flatR, sU, Un)
+    anorm = F.fro(sec.M)
+    Sf = yastn.svd(operand.y, **base)[1]                 # full spectrum (fullrank), anchored to NumPy
+    full_raw = F.diag_blocks(Sf)
+    w = {"sym": sym, "tensor": ht.desc(values=ht.size() <= 120), "operand": operand.info, "axes": [list(left), list(right)],
+         "sU": sU, "nU": nU, "Uaxis": Uaxis, "Vaxis": Vaxis, "policy": "lowrank", "full_spectrum": {str(t): v.tolist()[:12] for t, v in full_raw.items()}}
+    if not c04.compare_spectra(ctx, "svd", Sf, sec, "svd", None, anorm, w):
+        return
+    if not full_raw or any(t not in sec.sec for t in full_raw):
+        return
+    ts = sorted(full_raw)
+    # the block-charge the library sees is the negated new-leg charge for these argument combinations (first column / row leg)
+    s_col, s_row = ht.legs[flatR[0]].s, ht.legs[flatL[0]].s
+    negated = (nU and sU != s_col) or ((not nU) and sU != -s_row)
+    form = rng.choice(("int", "dict", "dict", "dict", "k_int", "k_dict"))
+    maxD = max(len(v) for v in full_raw.values())
+    if form.endswith("int"):
+        lim = rng.choice((1, 2, 3, max(maxD - 1, 1), maxD, maxD + 2) + ((5, 8, 12, 20) if big else ()))
+    else:
+        lim = {t: rng.choice((0, 1, 2, 3, len(full_raw[t]), len(full_raw[t]) + 1, max(len(full_raw[t]) - 1, 0)) + ((6, 11, 17) if len(full_raw[t]) > 30 else ()))
+               for t in ts}
+        if all(v == 0 for v in lim.values()):
+            lim[ts[0]] = 1
+        neg = {t: lim.get(G.neg(sym, t)) for t in ts}
+        if any(neg[t] != lim[t] for t in ts):
+            ctx.count("lowrank_dict_asymmetric")
+            ctx.count("lowrank_dict_asymmetric_negated_combo", int(negated))
+    kw = {("k_block" if form.startswith("k_") else "D_block"): lim}
+    extra, _ = gen_limits(rng, cluster(full_raw, 1e-8), False, True)
+    for name in ("D_total", "tol", "tol_block"):
+        if name in extra and rng.random() < 0.6:
+            kw[name] = extra[name]
+    w["kwargs"] = kw_desc(kw)
+    # which blocks go through ARPACK (backend_np.svds_scipy): k < min(D) - 1 and D0 * D1 > 5000
+    arpack = False
+    for t, (r, c) in sec.sec.items():
+        kk = min(lim[t] if isinstance(lim, dict) else lim, len(r), len(c)) if t in full_raw else 0
+        if 0 < kk < min(len(r), len(c)) - 1 and len(r) * len(c) > 5000:
+            arpack = True
+    ctx.count("lowrank_arpack_cases", int(arpack))
+    rel = 1e-8 if arpack else REL_RECOMPUTED
+    full = cluster(full_raw, rel)
+    args = dict(policy="lowrank", Uaxis=Uaxis, Vaxis=Vaxis, **base, **kw)
+    U, S, V = yastn.svd_with_truncation(operand.y, **args) if rng.random() < 0.7 else operand.y.svd_with_truncation(**args)
+    ctx.count("svd_with_truncation_lowrank")
+    ctx.count("lowrank:" + form)
+    ctx.count(f"lowrank:sU={sU},nU={nU}")
+    obs = trunc_observe(ctx, "svd_with_truncation:lowrank", E, ht, operand, left, right, U, S, V, sU, Un, Vn, Uaxis, Vaxis, w,
+                        iso_tol=1e-9 if arpack else None)
+    if obs is None:
+        return
+    Um, s, Vm, keptb = obs
+    kept, kept_raw = {}, {}
+    for t, v in keptb.items():
+        mk, kept_raw[t] = match_kept(full_raw[t], full[t], v, anorm, rel) if t in full else (None, None)
+        if mk is None:
+            ctx.violation("svd_with_truncation:lowrank:kept-not-in-spectrum", f"sector {t}: kept values {v.tolist()[:8]} are not values of the full "
+                          f"spectrum {np.asarray(full_raw.get(t, [])).tolist()[:8]}", w)
+            return
+        kept[t] = mk
+    spec_kw = {k_: v for k_, v in kw.items() if k_ != "k_block"}
+    if "k_block" in kw:
+        spec_kw["D_block"] = kw["k_block"]          # at most k_block values per block are computed, hence kept
+    judge_mask(ctx, "svd_with_truncation:lowrank", full, kept, spec_kw, w, rel)
+    ctx.count("lowrank_judged")
+    disc = collections.Counter(cat(full_raw.values()).tolist())
+    disc.subtract(collections.Counter(cat(kept_raw.values()).tolist()))
+    dn = float(np.sqrt(sum(v * v * n for v, n in disc.items() if n > 0)))
+    err = F.fro((Um * s[None, :]) @ Vm - sec.M)
+    ctx.count("error_identity_checked")
+    name = "svd_with_truncation:lowrank:error-identity" + (":arpack" if arpack else "")
+    if not ctx.margin(name, abs(err - dn), (1e-9 if arpack else 1e-12) * max(anorm, 1e-300)):
+        ctx.violation("svd_with_truncation:lowrank:error-identity", f"||a - U S V|| = {err:.6e} but the discarded singular values have norm {dn:.6e} "
+                      f"(||a|| = {anorm:.3e})", w)
+    ctx.case(("svd_lowrank", operand.sig(), left, right, sU, nU, Uaxis, Vaxis, form, big, kw_struct(kw)), True,
+             {"workload": "svd_with_truncation(policy=lowrank)", "sym": sym, "kwargs": kw_desc(kw), "sU": sU, "nU": nU,
+              "full": {str(t): v.tolist()[:10] for t, v in full_raw.items()}, "kept": {str(t): v.tolist()[:10] for t, v in kept_raw.items()}} if idx % 40 == 4 else None)
+
+
 def transform(vals, which):
     vals = np.asarray(vals, dtype=float)
     return {"LM": np.abs(vals), "SM": -np.abs(vals), "LR": vals, "SR": -vals}[which]
@@ -986,7 +1115,8 @@ def eigh_trunc_case(ctx, idx, sym):
               "full": {str(t): v.tolist() for t, v in fullS.items()}, "kept": {str(t): v.tolist() for t, v in keptS.items()}} if idx % 40 == 3 else None)
 
 
-WORK = [mask_case, mask_case, mask_case, mask_case, multiplet_case, svd_trunc_case, eigh_trunc_case, mask_case, svd_trunc_case, multiplet_case]
+WORK = [mask_case, mask_case, mask_case, mask_case, multiplet_case, svd_trunc_case, eigh_trunc_case, mask_case, svd_trunc_case, multiplet_case,
+        svd_lowrank_case]
 
 
 def run_case(ctx, idx):
